@@ -418,6 +418,22 @@ def m_index(en, st, recv, a, kw):
     return [(st.tainted(), fresh('index'))]
 
 
-METHODS = {'append': m_append, 'extend': m_extend, 'get': m_get, 'items': m_items, 'keys': m_keys, 'values': m_values, 'add': m_add,
+def m_bit_length(en, st, recv, a, kw):
+    v = en.read(recv, st)
+    n = int_of(v)
+    mag = z3.If(n < 0, -n, n)
+    bl = fresh('bitlen', IntS)
+    facts = [bl >= 0, (bl == 0) == (mag == 0)] + [(bl <= k) == (mag < 2 ** k) for k in (1, 7, 8, 15, 16, 31, 32, 53, 63, 64)]
+    out = []
+    q = en.fork(st, is_intlike(v))
+    if q is not None:
+        out.append((q.assume(*facts), V.Int(bl)))
+    q = en.fork(st, z3.Not(is_intlike(v)))
+    if q is not None:
+        out.append((q, _E(en, 'AttributeError')))
+    return out
+
+
+METHODS = {'bit_length': m_bit_length, 'append': m_append, 'extend': m_extend, 'get': m_get, 'items': m_items, 'keys': m_keys, 'values': m_values, 'add': m_add,
            'startswith': m_startswith, 'join': m_join, 'format': m_format, 'lower': m_lower, 'pop': m_pop, 'setdefault': m_setdefault,
            'update': m_update, 'copy': m_copy, 'split': m_split, 'strip': m_strip, 'encode': m_encode, 'index': m_index}
